@@ -169,7 +169,7 @@ func checkC06(p *Prog, res *Result, tier string) {
 	// ---- R4: what List returns is the whole snapshot (C13-R5/R6/R8) ----
 	sub13 := p.subResult("C13", tier)
 	for _, o := range sub13.Obls {
-		if o.Rule == "C13-R5" || o.Rule == "C13-R6" || o.Rule == "C13-R8" {
+		if o.Rule == "C13-R5" || o.Rule == "C13-R6" || o.Rule == "C13-R8" || o.Rule == "C13-R3" {
 			res.add("C06-R4", o.Rule+" "+o.Construct, o.Status, o.Pos, o.Detail)
 		}
 	}
